@@ -17,7 +17,7 @@ func main() {
 		Modes:     []luaprop.Mode{{Name: "meta", Features: f, Weight: 1}},
 		NQuick:    400,
 		NThorough: 2500,
-		Corpus:    corpus,
+		Corpus:    append(corpus, corpusW5...),
 		Extra:     metaExtra,
 		VM:        true,
 	})
